@@ -63,3 +63,44 @@ macro_rules! param_phase {
 param_phase!(c09_param_phase_other_kind, 30024, PK_1, b"dx");
 param_phase!(c09_param_phase_other_author, 30023, PK_2, b"dx");
 param_phase!(c09_param_phase_other_d, 30023, PK_1, b"dy");
+
+/// the same two-event store with CONCRETE times (E1 older than its neighbour, both not after `until`)
+macro_rules! param_phase_fixed {
+    ($name:ident, $k2:expr, $pk2:expr, $d2:expr) => {
+        store_harness!($name, {
+            let store = verif_store();
+            let (t1, t2, until) = (0x1010u64, 0x1080u64, 0x10C0u64);
+            let c: u8 = kani::any();
+            let mut e1 = [0u8; 170];
+            let n1 = enc_event_img(30023, t1, &ID_A, &PK_1, &SIG_0, &[&[1, 1]], b"dx", &[c], &mut e1);
+            let mut e2 = [0u8; 170];
+            let n2 = enc_event_img($k2, t2, &ID_B, &$pk2, &SIG_0, &[&[1, 1]], $d2, b"", &mut e2);
+            let _ = seed_stored(&store, as_event(&e1[..n1]));
+            let _ = seed_stored(&store, as_event(&e2[..n2]));
+            let addr = Addr { kind: Kind::from_u16(30023), author: Pubkey::from_bytes(PK_1), d: vec![b'x'] };
+            let cur = some!(ok!(store.find_parameterized_replaceable_event(&addr)));
+            assert!(cur.id() == Id::from_bytes(ID_A), "the holder of the address is hidden by / confused with a neighbouring address");
+            {
+                let mut txn = ok!(store.indexes.write_txn());
+                ok!(store.remove_parameterized_replaceable(&mut txn, &addr, Time::from_u64(until)));
+                ok!(txn.commit());
+            }
+            assert!(has(&store, &ID_B), "an event at a neighbouring address was removed");
+            assert!(!has(&store, &ID_A), "removal up to `until` did not remove the address's event");
+            core::mem::forget(addr);
+            core::mem::forget(store);
+        });
+    };
+}
+
+//@ harness: c09_param_phase_fixed_other_kind c09_param_phase_fixed_other_author
+//@ tier: thorough
+//@ timeout: 3000
+//@ mem: 20
+//@ covers: none
+//@ unwindset: put_bytes=80; heed::bytes_=260; heed::Table=6; memcmp.0=70; repeat::Repeat=190; Repeat.*try_fold=190; mmap_append=200; read_hex=34; enc_tags=6
+//@ cbmc: --max-field-sensitivity-array-size 1100
+//@ encodes: Store::find_parameterized_replaceable_event_inner, Store::remove_parameterized_replaceable, Store::remove_by_offset, Lmdb::atc_iter, Lmdb::deindex
+//@ bounds: the c09_param_phase_* scenario with CONCRETE times (E1 at 0x1010, its neighbour - other kind / other author - NEWER at 0x1080, removal up to 0x10C0; the solver quantifies only over one content byte): the lookup returns E1 although the newer neighbour comes first in the author+tag scan, and the removal removes E1 and keeps the neighbour. Concrete because an arbitrary time makes the scan result symbolic and the harness exceeds its caps (8.2)
+param_phase_fixed!(c09_param_phase_fixed_other_kind, 30024, PK_1, b"dx");
+param_phase_fixed!(c09_param_phase_fixed_other_author, 30023, PK_2, b"dx");
